@@ -14,11 +14,16 @@
      --no-status, "status : <status>", the reasons when the status is not up-to-date, return code;
      Info.get_reasons (88-121): which lines are printed, in which order.  The attribute listing
      printed afterwards (file_dep, task_dep, ... 76-86) shows fields of the Task object: not modelled.
-   * Both commands look at the task AS LOADED: self.task_list straight from the loader -- no
-     TaskControl, so the values a calc_dep task saved are NOT merged into file_dep (cmd_base.py 603
-     carries the matching FIXME for tasks_and_deps_iter), and no setup-task runs.  `run` merges
-     them (control.py 614-628 TaskDispatcher._process_calc_dep_results -> Task.update_deps) before
-     it asks get_status: [run_def].
+   * Both commands get self.task_list straight from the loader (no TaskControl, no setup-task runs).
+     Before get_status they call cmd_base.merge_calc_dep (cmd_base.py 611-626): the values saved by the
+     task's calc_dep tasks are merged into the Task object (Task.update_deps), which is what `run`
+     does (control.py TaskDispatcher._process_calc_dep_results) with the values of an up-to-date
+     calc_dep task: [run_def].  Only the 'file_dep' part of those values is modelled ([cf] oracle:
+     the list under 'file_dep' in the saved values of a task; [saved_fd]: nothing when the task has
+     no record).  `info` tests status_is_ignore first and prints "status : ignored".
+     [iver] selects the code version: [icurrent] is HEAD (after a4fdc5e and 33e694f), [ilegacy] the
+     code before them (no merge; info never looked at the ignore flag), kept so that the two defects
+     stay stated (Properties/C20.v, `..._legacy_refuted`).
    * Neither command calls dep_manager.close().  The one mutation get_status can make (the record of
      a task whose stored checker differs from the configured one is removed, dependency.py 680-689)
      therefore reaches the disk only with the backend whose `remove` writes through (DbmDB:
@@ -84,6 +89,14 @@ Definition backend_z (b : backend) : Z := match b with BJson => 1 | BDbm => 2 | 
 (* what is on disk after a command that never calls dep_manager.close(): [d] before, [d'] in memory *)
 Definition persisted (b : backend) (d d' : db) : db := match b with BDbm => d' | _ => d end.
 
+Record iver := { fixCalc : bool; fixIgn : bool }.
+Definition icurrent : iver := {| fixCalc := true; fixIgn := true |}.
+Definition ilegacy : iver := {| fixCalc := false; fixIgn := false |}.
+
+(* dep_manager.get_values(c).get('file_dep', []) : nothing without a record *)
+Definition saved_fd (cf : name -> list file) (d : db) (c : name) : list file :=
+  match d c with Some _ => cf c | None => [] end.
+
 (* help / dumpdb / tabcompletion / clean --dry-run *)
 Definition noop_cmd (d : db) : db := d.
 
@@ -91,6 +104,8 @@ Section Introspect.
 Variable md5 : N -> N.
 Variable v : ver.
 Variable name_ltb : name -> name -> bool.     (* oracle: Python's `<` on the task-name strings (Task.__lt__, task.py 556-558) *)
+Variable iv : iver.
+Variable cf : name -> list file.              (* oracle: the 'file_dep' list in the values a task saved *)
 
 (* ---- the decision of Runner.select_task for a task not selected before, with
    node.ignored_deps = node.bad_deps = [] and without --always (runner.py 113-150):
@@ -100,17 +115,25 @@ Definition run_decision (c : ck) (fs : fsys) (d : db) (n : name) (df : tdef) : d
   if status_is_ignore d n then DIgnore
   else decision_of_status (g_status (get_status md5 v c fs d n df false)).
 
-(* the definition `run` hands to get_status: the file_dep lists saved (or just returned) by the
-   task's calc_dep tasks are merged first; [calc_fd c] = values['file_dep'] of calc task c *)
-Definition run_def (calc_fd : name -> list file) (t : ltask) : tdef :=
-  fold_left (fun df c => add_file_deps df (calc_fd c)) (l_calc_dep t) (l_def t).
+(* the definition `run` hands to get_status: the file_dep lists saved by the task's calc_dep tasks
+   (those that are tasks at all) are merged first; [fd c] = values['file_dep'] of calc task c.
+   cmd_base.merge_calc_dep does the same for list / info *)
+Definition run_def (tb : table) (fd : name -> list file) (t : ltask) : tdef :=
+  fold_left (fun df c => match lookup tb c with Some _ => add_file_deps df (fd c) | None => df end) (l_calc_dep t) (l_def t).
+
+(* the definition list / info hand to get_status when the DB is [d] *)
+Definition shown_def (tb : table) (d : db) (t : ltask) : tdef :=
+  if fixCalc iv then run_def tb (saved_fd cf d) t else l_def t.
 
 (* ------------------------------------------------------------------ list *)
 (* List._print_task 86-94: (letter, DB afterwards) *)
-Definition task_status (c : ck) (fs : fsys) (d : db) (t : ltask) : option letter * db :=
+Definition task_status (tb : table) (c : ck) (fs : fsys) (d : db) (t : ltask) : option letter * db :=
   if status_is_ignore d (l_name t) then (Some LtI, d)
-  else let g := get_status md5 v c fs d (l_name t) (l_def t) false in
+  else let g := get_status md5 v c fs d (l_name t) (shown_def tb d t) false in
        (status_letter (g_status g), g_db g).
+(* task.file_dep as --deps prints it: the Task object was updated by merge_calc_dep iff its status was computed *)
+Definition printed_def (tb : table) (status : bool) (d : db) (t : ltask) : tdef :=
+  if status && negb (status_is_ignore d (l_name t)) then shown_def tb d t else l_def t.
 
 Record lopts := {
   o_subtasks : bool;      (* --all *)
@@ -201,8 +224,8 @@ Definition print_list (tb : table) (o : lopts) : pres (list ltask) :=
   | e => e
   end.
 
-Definition dep_lines (o : lopts) (t : ltask) : list lline :=
-  if o_list_deps o then map LDep (file_dep (l_def t)) ++ [LBlank] else [].
+Definition dep_lines (tb : table) (o : lopts) (d : db) (t : ltask) : list lline :=
+  if o_list_deps o then map LDep (file_dep (printed_def tb (o_status o) d t)) ++ [LBlank] else [].
 Definition prepend (ls : list lline) (r : lres) : lres :=
   match r with
   | LOk l d => LOk (ls ++ l) d
@@ -211,30 +234,30 @@ Definition prepend (ls : list lline) (r : lres) : lres :=
   end.
 
 (* 166-169: the loop over print_list, threading the DB through the get_status calls *)
-Fixpoint print_tasks (c : ck) (fs : fsys) (o : lopts) (pl : list ltask) (d : db) : lres :=
+Fixpoint print_tasks (tb : table) (c : ck) (fs : fsys) (o : lopts) (pl : list ltask) (d : db) : lres :=
   match pl with
   | [] => LOk [] d
   | t :: r =>
       if o_status o then
-        match task_status c fs d t with
-        | (Some l, d') => prepend (LTask (l_name t) (Some l) :: dep_lines o t) (print_tasks c fs o r d')
+        match task_status tb c fs d t with
+        | (Some l, d') => prepend (LTask (l_name t) (Some l) :: dep_lines tb o d t) (print_tasks tb c fs o r d')
         | (None, d') => LCrash [] d'
         end
-      else prepend (LTask (l_name t) None :: dep_lines o t) (print_tasks c fs o r d)
+      else prepend (LTask (l_name t) None :: dep_lines tb o d t) (print_tasks tb c fs o r d)
   end.
 
 Definition list_cmd (tb : table) (o : lopts) (c : ck) (fs : fsys) (d : db) : lres :=
   match print_list tb o with
-  | POk pl => print_tasks c fs o pl d
+  | POk pl => print_tasks tb c fs o pl d
   | PInvalid n => LInvalid n
   | PKeyErr n => LKeyErr n
   end.
 
 (* the letters `list --status` shows, with the DB each task was examined in *)
-Fixpoint status_letters (c : ck) (fs : fsys) (pl : list ltask) (d : db) : list (name * option letter * db) :=
+Fixpoint status_letters (tb : table) (c : ck) (fs : fsys) (pl : list ltask) (d : db) : list (name * option letter * db) :=
   match pl with
   | [] => []
-  | t :: r => (l_name t, fst (task_status c fs d t), d) :: status_letters c fs r (snd (task_status c fs d t))
+  | t :: r => (l_name t, fst (task_status tb c fs d t), d) :: status_letters tb c fs r (snd (task_status tb c fs d t))
   end.
 
 (* ------------------------------------------------------------------ info *)
@@ -276,25 +299,30 @@ Definition get_reasons (r : reasons) : list iline :=
   (match rs_checker_changed r with Some (p, c) => [IChecker p c] | None => [] end) ++
   flat_map (fun k => match entries r k with [] => [] | l => IHeader k :: map (IItem k) l end) all_kinds.
 
+Inductive istatus := IHidden | IIgnored | IStatus (s : status).   (* --no-status | "ignored" | get_status(...).status *)
+Definition istatus_z (x : istatus) : Z := match x with IHidden => -1 | IIgnored => 3 | IStatus s => status_z s end.
+Definition istatus_decision (x : istatus) : option decision :=
+  match x with IHidden => None | IIgnored => Some DIgnore | IStatus s => Some (decision_of_status s) end.
 Inductive ires :=
-| IOk (st : option status) (lines : list iline) (retcode : Z) (d : db)   (* st = None: --no-status *)
+| IOk (st : istatus) (lines : list iline) (retcode : Z) (d : db)
 | IInvalidCmd                       (* "`info` failed, must select *one* task." *)
 | IKeyErr (n : name)                (* tasks[task_name] *)
 | ICrash (d : db).                  (* TypeError escaping get_status *)
 
-(* Info._execute 27-86 *)
+(* Info._execute 27-89 *)
 Definition info_cmd (tb : table) (pos : list name) (hide_status : bool) (c : ck) (fs : fsys) (d : db) : ires :=
   match pos with
   | [n] =>
       match lookup tb n with
       | None => IKeyErr n
       | Some t =>
-          if hide_status then IOk None [] 0 d else
-          let g := get_status md5 v c fs d (l_name t) (l_def t) true in
+          if hide_status then IOk IHidden [] 0 d else
+          if fixIgn iv && status_is_ignore d (l_name t) then IOk IIgnored [] 0 d else
+          let g := get_status md5 v c fs d (l_name t) (shown_def tb d t) true in
           match g_status g with
           | Crash => ICrash (g_db g)
-          | UpToDate => IOk (Some UpToDate) [] 0 (g_db g)
-          | s => IOk (Some s) (get_reasons (g_reasons g)) 1 (g_db g)
+          | UpToDate => IOk (IStatus UpToDate) [] 0 (g_db g)
+          | s => IOk (IStatus s) (get_reasons (g_reasons g)) 1 (g_db g)
           end
       end
   | _ => IInvalidCmd
@@ -314,13 +342,21 @@ End Introspect.
 Definition enc_letter (l : option letter) : Z := match l with Some x => letter_z x | None => 0 end.
 Definition enc_lline (l : lline) : list Z :=
   match l with LTask n st => [1; zN n; enc_letter st] | LDep f => [2; zN f] | LBlank => [3] end.
+(* the order in which a Python set is iterated is not modelled: runs of --deps lines (and, below, the
+   items of one reason) are compared as sorted lists *)
+Fixpoint canon_l (ls : list lline) (pending : list file) : list lline :=
+  match ls with
+  | LDep f :: r => canon_l r (f :: pending)
+  | x :: r => map LDep (sort_files pending) ++ x :: canon_l r []
+  | [] => map LDep (sort_files pending)
+  end.
 (* [0] lines -7 DB | [1; n] invalid | [2; n] KeyError | [98] lines -7 DB *)
 Definition enc_lres (b : backend) (tasks : list name) (files : list file) (d0 : db) (r : lres) : list Z :=
   match r with
-  | LOk l d => [0] ++ flat_map enc_lline l ++ [-7] ++ db_z tasks files (persisted b d0 d)
+  | LOk l d => [0] ++ flat_map enc_lline (canon_l l []) ++ [-7] ++ db_z tasks files (persisted b d0 d)
   | LInvalid n => [1; zN n]
   | LKeyErr n => [2; zN n]
-  | LCrash l d => [98] ++ flat_map enc_lline l ++ [-7] ++ db_z tasks files (persisted b d0 d)
+  | LCrash l d => [98] ++ flat_map enc_lline (canon_l l []) ++ [-7] ++ db_z tasks files (persisted b d0 d)
   end.
 Definition enc_iline (l : iline) : list Z :=
   match l with
@@ -328,10 +364,16 @@ Definition enc_iline (l : iline) : list Z :=
   | IChecker p c => [13; 10 * ck_z p + ck_z c]
   | IHeader k => [20 + rkind_z k] | IItem k f => [30 + rkind_z k; zN f]
   end.
-(* [0; status or -1; retcode] lines -7 DB | [1] invalid command | [2; n] KeyError | [98] -7 DB *)
+Fixpoint canon_i (ls : list iline) (pk : rkind) (pending : list file) : list iline :=
+  match ls with
+  | IItem k f :: r => canon_i r k (f :: pending)
+  | x :: r => map (IItem pk) (sort_files pending) ++ x :: canon_i r pk []
+  | [] => map (IItem pk) (sort_files pending)
+  end.
+(* [0; status (3 ignored, -1 hidden); retcode] lines -7 DB | [1] invalid command | [2; n] KeyError | [98] -7 DB *)
 Definition enc_ires (b : backend) (tasks : list name) (files : list file) (d0 : db) (r : ires) : list Z :=
   match r with
-  | IOk st l rc d => [0; match st with Some s => status_z s | None => -1 end; rc] ++ flat_map enc_iline l
+  | IOk st l rc d => [0; istatus_z st; rc] ++ flat_map enc_iline (canon_i l KMissingTarget [])
                      ++ [-7] ++ db_z tasks files (persisted b d0 d)
   | IInvalidCmd => [1]
   | IKeyErr n => [2; zN n]
